@@ -252,6 +252,7 @@ func buildOpt(g *gctx, maxCtx int) OptCase {
 
 func genOpt(t *rapid.T) OptCase {
 	g := &gctx{t: t, labels: map[string]bool{}, misuse: true}
+	g.good = g.chance(60, "wellFormedConstants")
 	return buildOpt(g, 8)
 }
 
@@ -710,6 +711,7 @@ type FuncsCase struct {
 	Cli    bool // also through the rare binary (first context)
 	// from the generator, for labels and the non-trivial rule
 	Continuations, CommentsInside, BlanksInside int
+	TopBreaks, BreakAfterBackslash              int
 	MaxArgUses                                  int
 	CallsEarlier                                bool
 	Labels                                      []string
@@ -760,6 +762,7 @@ func buildFuncs(g *gctx, maxCtx int, cliPct int) FuncsCase {
 	c.File = pbt.S(lay.file(defs))
 	c.Flat = pbt.S(flatFile(defs))
 	c.Continuations, c.CommentsInside, c.BlanksInside = lay.continuations, lay.commentsIn, lay.blankIn
+	c.TopBreaks, c.BreakAfterBackslash = lay.topBreaks, lay.breakAfterBackslash
 	dm := map[string]*Def{}
 	for _, d := range defs {
 		c.Names = append(c.Names, d.Name)
@@ -1034,6 +1037,8 @@ func classifyFuncs(c FuncsCase) (bool, []string) {
 	add(c.Continuations >= 3, "continuations>=3")
 	add(c.CommentsInside > 0, "comment-line-inside-continuation")
 	add(c.BlanksInside > 0, "blank-line-inside-continuation")
+	add(c.TopBreaks > 0, "line-broken-between-top-level-pieces")
+	add(c.BreakAfterBackslash > 0, "continuation-right-after-escaped-backslash")
 	add(c.MaxArgUses >= 2, "argument-used-twice")
 	add(c.CallsEarlier, "calls-earlier-definition")
 	add(len(c.Names) >= 3, "definitions>=3")
